@@ -189,8 +189,76 @@ def op(cfg):
 {cfg.get("acheck_pre", "")}    {("rcases hx' with " + pat(len(allF)) + " <;> subst h") if len(allF) > 1 else "subst hx'"}
     all_goals (refine ⟨?_, ?_⟩ <;> evw [{F}{cfg.get("acheck_facts", "")}] <;> grind)
 """))
+    if "ccw" in cfg:
+        s.append(ccw_theorem(cfg, F, allE, newE))
     s.append("end St\nend Spade\n")
-    open(os.path.join(OUT, cfg["file"] + ".lean"), "w").write(HEADER + "\n".join(s))
+    hdr = HEADER.replace("import Spade.Proofs.LinkInv.Base", "import Spade.Proofs.CcwBase") if "ccw" in cfg else HEADER
+    open(os.path.join(OUT, cfg["file"] + ".lean"), "w").write(hdr + "\n".join(s))
+
+def ccw_theorem(cfg, F, allE, newE):
+    """second theorem of the file: the operation keeps every inner face counter-clockwise, given
+    the geometric hypothesis of the operation (cfg["ccw"])"""
+    import re
+    c = cfg["ccw"]
+    core = cfg["core"]
+    old = cfg["old"]
+    m = re.search(r"theorem LInv\.(\w+) \{s : St\} \(hs : LInv s\)(.*?):\n    LInv \((.*)\)\s*$", cfg["sig"], re.S)
+    name, binders, callfull = m.group(1), m.group(2), m.group(3)
+    call = cfg["call"]
+    nT = len(old)
+    tn = ", ".join(f"t_{i}" for i in range(len(allE)))
+    out = []
+    out.append("set_option maxHeartbeats 4000000 in")
+    out.append(f"/-- {c['doc']} -/")
+    out.append(f"theorem CInv.{name}_ccw {{s : St}} (hc : CInv s){binders.rstrip()} {c['hyps']} :")
+    out.append(f"    ∀ x, x < ({callfull}).nE → CcwE ({callfull}) x := by")
+    out.append("  have hs := hc.links")
+    out.append("  have ev0 := hs.even")
+    out.append(c["setup"])
+    out.append(prelude(old))
+    rvfacts = []
+    for i, e in enumerate(old):
+        out.append(f"  have L_{i} := hs.rv_lt b_{i}")
+        out.append(f"  have rvn_{i} : ∀ k, s.rv {e} ≠ s.nE + k := by intro k; omega")
+        out.append(f"  have rvm_{i} : s.rv {e} ≠ s.nE := by omega")
+        out.append(f"  have on_{i} : s.org {e} ≠ s.nV := by have := (hs.edge _ b_{i}).1; omega")
+        out.append(f"  have orn_{i} : s.org (s.rv {e}) ≠ s.nV := by have := (hs.edge _ L_{i}).1; omega")
+        rvfacts += [f"rvn_{i}", f"rvm_{i}", f"on_{i}", f"orn_{i}"]
+    RV = ", " + ", ".join(rvfacts) if rvfacts else ""
+    gv, ge, gf = cfg["grows"]
+    out.append(f"""  have szE : ({call}).nE = s.nE + {ge} := by unfold St.{core}; evw [{F}]
+  intro x hx hfx
+  rw [szE] at hx
+  by_cases hT : {ors(allE, "x")}
+  · unfold St.{core} at hfx ⊢
+    unfold CcwE A B C opp dst EdgeOK at *
+    rcases hT with {pat(len(allE))} <;> subst h
+    all_goals (revert hfx; evw [{F}{cfg.get("sem", "")}{c.get("facts", "")}{RV}]; intro hfx; grind (splits := 40))
+  · simp only [not_or] at hT
+    obtain ⟨{tn}⟩ := hT
+    have hlt : x < s.nE := by omega
+    have Ex := hs.edge x hlt
+    have rx := hs.rv_rv hlt
+    have lx := hs.rv_lt hlt
+    have kx := hc.ccw x hlt
+    have hin : ∀ k, x ≠ s.nE + k := by intro k; omega
+    have hi0 : x ≠ s.nE := by omega
+    have px := (hs.edge x hlt).2.2.1
+    have y1 : ∀ k, s.rv x ≠ s.nE + k := by intro k; omega
+    have y2 : s.rv x ≠ s.nE := by omega
+    have y3 : ∀ k, s.prv x ≠ s.nE + k := by intro k; omega
+    have y4 : s.prv x ≠ s.nE := by omega
+    have y5 : s.org x ≠ s.nV := by have := (hs.edge x hlt).1; omega
+    have y6 : s.org (s.rv x) ≠ s.nV := by have := (hs.edge _ lx).1; omega
+    have y7 : s.org (s.prv x) ≠ s.nV := by have := (hs.edge _ px).1; omega
+    unfold St.{core} at hfx ⊢
+    unfold CcwE A B C opp dst EdgeOK at *
+    revert hfx
+    evw [{F}, {", ".join(f"t_{i}" for i in range(nT))}, hin, hi0, hlt, y1, y2, y3, y4, y5, y6, y7]
+    intro hfx
+    grind (splits := 40)
+""")
+    return "\n".join(out)
 
 def dpairs(names):
     """names of pairwise-distinctness facts d_i_j from a conjunction `dd`"""
@@ -260,6 +328,60 @@ theorem LInv.seCore {s : St} (hs : LInv s) (e0 : Nat) (p : Pt) (d : Nat) (b_0 : 
     acheck_pre="    by_cases hq : s.fc e0 = s.fc t0 <;>\n",
     acheck_facts=", fb1, fb2",
     sem=", hen, hep, ht, htn, htp, a3, a4, a5, a6, c3, c4, c5, c6, rr",
+    ccw=dict(
+        doc="splitting an edge between two inner faces at a point of its relative interior keeps every inner face counter-clockwise",
+        hyps="(hgeo : OnOpenSeg (s.A e0) (s.B e0) p)",
+        setup="""  have b_3 := hs.rv_lt b_0
+  obtain ⟨b_1, b_2, a3, a4, a5, a6, a7, a8, a9, a10, a11⟩ := hs.tri b_0 hfe0
+  obtain ⟨b_4, b_5, c3, c4, c5, c6, c7, c8, c9, c10, c11⟩ := hs.tri b_3 hft0
+  obtain ⟨x1, x2⟩ := hs.tri_cross b_0 hfe0
+  have rr := hs.rv_rv b_0
+  have rne := hs.rv_ne b_0
+  have E0 := hs.edge e0 b_0
+  have E1 := hs.edge _ b_1
+  have E2 := hs.edge _ b_2
+  have E3 := hs.edge _ b_3
+  have E4 := hs.edge _ b_4
+  have E5 := hs.edge _ b_5
+  have r1 := hs.rv_rv b_1
+  have r2 := hs.rv_rv b_2
+  have r4 := hs.rv_rv b_4
+  have r5 := hs.rv_rv b_5
+  have l1 := hs.rv_lt b_1
+  have l2 := hs.rv_lt b_2
+  have l4 := hs.rv_lt b_4
+  have l5 := hs.rv_lt b_5
+  have k0 := hc.ccw e0 b_0 hfe0
+  have k3 := hc.ccw _ b_3 hft0
+  unfold CcwE A B C opp dst at k0 k3
+  unfold A B dst at hgeo
+  rw [rr] at k3
+  obtain ⟨⟨s1, s2, s3⟩, ⟨s4, s5, s6⟩⟩ := split_facts _ _ _ p hgeo k0
+  obtain ⟨⟨s7, s8, s9⟩, ⟨s10, s11, s12⟩⟩ := split_facts _ _ _ p (onOpenSeg_symm _ _ _ hgeo) k3
+  -- destinations written as origins of the successor
+  have hv_en : s.org (s.rv (s.nxt e0)) = s.org (s.prv e0) := by
+    have := E1.2.2.2.2.2.2.2.2.1; rw [a3] at this; exact this.symm
+  have hv_ep : s.org (s.rv (s.prv e0)) = s.org e0 := by
+    have := E2.2.2.2.2.2.2.2.2.1; rw [a4] at this; exact this.symm
+  have hv_tn : s.org (s.rv (s.nxt (s.rv e0))) = s.org (s.prv (s.rv e0)) := by
+    have := E4.2.2.2.2.2.2.2.2.1; rw [c3] at this; exact this.symm
+  have hv_tp : s.org (s.rv (s.prv (s.rv e0))) = s.org (s.rv e0) := by
+    have := E5.2.2.2.2.2.2.2.2.1; rw [c4] at this; exact this.symm
+  have ho_en : s.org (s.nxt e0) = s.org (s.rv e0) := E0.2.2.2.2.2.2.2.2.1
+  have ho_tn : s.org (s.nxt (s.rv e0)) = s.org e0 := by
+    have := E3.2.2.2.2.2.2.2.2.1; unfold dst at this; rw [rr] at this; exact this
+  generalize hen : s.nxt e0 = en at *
+  generalize hep : s.prv e0 = ep at *
+  generalize ht : s.rv e0 = t0 at *
+  generalize htn : s.nxt t0 = tn at *
+  generalize htp : s.prv t0 = tp at *
+  have dd : e0 ≠ en ∧ e0 ≠ ep ∧ e0 ≠ t0 ∧ e0 ≠ tn ∧ e0 ≠ tp ∧ en ≠ ep ∧ en ≠ t0 ∧ en ≠ tn ∧ en ≠ tp ∧
+         ep ≠ t0 ∧ ep ≠ tn ∧ ep ≠ tp ∧ t0 ≠ tn ∧ t0 ≠ tp ∧ tn ≠ tp := by
+    refine ⟨a9, a10, Ne.symm rne, ?_, ?_, a11, Ne.symm x1, ?_, ?_, Ne.symm x2, ?_, ?_, c9, c10, c11⟩
+    all_goals grind
+  """ + dpairs(["e0", "en", "ep", "t0", "tn", "tp"]),
+        facts=", hv_en, hv_ep, hv_tn, hv_tp, ho_en, ho_tn",
+    ),
 )
 
 TRIANGLE = dict(
@@ -299,6 +421,38 @@ theorem LInv.itCore {s : St} (hs : LInv s) (f0 : Nat) (p : Pt) (d : Nat) (hf0 : 
   generalize he2 : s.prv e0 = e2 at *""",
     acheck_facts=", hf",
     sem=", he1, he2, a3, a4, a5, a6",
+    ccw=dict(
+        doc="inserting a vertex strictly inside an inner face keeps every inner face counter-clockwise",
+        hyps="(hgeo : StrictlyInsideTri (s.A (s.fe f0)) (s.B (s.fe f0)) (s.C (s.fe f0)) p)",
+        setup="""  obtain ⟨b_0, hfc⟩ := hs.anchor f0 hf0 hf
+  have hfc0 : s.fc (s.fe f0) ≠ 0 := by omega
+  obtain ⟨b_1, b_2, a3, a4, a5, a6, a7, a8, d_0_1, d_0_2, d_1_2⟩ := hs.tri b_0 hfc0
+  have E0 := hs.edge _ b_0
+  have E1 := hs.edge _ b_1
+  have E2 := hs.edge _ b_2
+  have l0 := hs.rv_lt b_0
+  have l1 := hs.rv_lt b_1
+  have l2 := hs.rv_lt b_2
+  unfold StrictlyInsideTri A B C opp dst at hgeo
+  have hv1 : s.org (s.rv (s.fe f0)) = s.org (s.nxt (s.fe f0)) := E0.2.2.2.2.2.2.2.2.1.symm
+  have hv2 : s.org (s.rv (s.nxt (s.fe f0))) = s.org (s.prv (s.fe f0)) := by
+    have := E1.2.2.2.2.2.2.2.2.1; rw [a3] at this; exact this.symm
+  have hv0 : s.org (s.rv (s.prv (s.fe f0))) = s.org (s.fe f0) := by
+    have := E2.2.2.2.2.2.2.2.2.1; rw [a4] at this; exact this.symm
+  simp only [hv1] at hgeo
+  obtain ⟨g1, g2, g3⟩ := hgeo
+  have g1a := g1; rw [← orient_rot] at g1a
+  have g1b := g1a; rw [← orient_rot] at g1b
+  have g2a := g2; rw [← orient_rot] at g2a
+  have g2b := g2a; rw [← orient_rot] at g2b
+  have g3a := g3; rw [← orient_rot] at g3a
+  have g3b := g3a; rw [← orient_rot] at g3b
+  generalize he0 : s.fe f0 = e0 at *
+  generalize he1 : s.nxt e0 = e1 at *
+  rw [a3]
+  generalize he2 : s.prv e0 = e2 at *""",
+        facts=", hv0, hv1, hv2",
+    ),
 )
 
 SPLIT_HALF = dict(
@@ -359,6 +513,51 @@ theorem LInv.shCore {s : St} (hs : LInv s) (e0 : Nat) (p : Pt) (d : Nat) (b_0 : 
   have fb1 : s.fc e0 < s.nF := E0.2.2.2.1""",
     acheck_facts=", fb1",
     sem=", hen, hep, ht, htq, a3, a4, a5, a6, c4, rr",
+    ccw=dict(
+        doc="splitting a hull edge (from its inner side) at a point of its relative interior keeps every inner face counter-clockwise",
+        hyps="(hgeo : OnOpenSeg (s.A e0) (s.B e0) p)",
+        setup="""  have b_3 := hs.rv_lt b_0
+  obtain ⟨b_1, b_2, a3, a4, a5, a6, a7, a8, a9, a10, a11⟩ := hs.tri b_0 hfe0
+  obtain ⟨x1, x2⟩ := hs.tri_cross b_0 hfe0
+  have rr := hs.rv_rv b_0
+  have rne := hs.rv_ne b_0
+  have E0 := hs.edge e0 b_0
+  have E1 := hs.edge _ b_1
+  have E2 := hs.edge _ b_2
+  have E3 := hs.edge _ b_3
+  have b_4 : s.prv (s.rv e0) < s.nE := E3.2.2.1
+  have E4 := hs.edge _ b_4
+  have c4 : s.nxt (s.prv (s.rv e0)) = s.rv e0 := E3.2.2.2.2.2.2.1
+  have c8 : s.fc (s.prv (s.rv e0)) = 0 := by
+    have := E4.2.2.2.2.2.2.2.1; rw [c4, hft0] at this; exact this.symm
+  have r1 := hs.rv_rv b_1
+  have r2 := hs.rv_rv b_2
+  have r4 := hs.rv_rv b_4
+  have l1 := hs.rv_lt b_1
+  have l2 := hs.rv_lt b_2
+  have l4 := hs.rv_lt b_4
+  have bn : s.nxt (s.rv e0) < s.nE := E3.2.1
+  have En := hs.edge _ bn
+  have k0 := hc.ccw e0 b_0 hfe0
+  unfold CcwE A B C opp dst at k0
+  unfold A B dst at hgeo
+  obtain ⟨⟨s1, s2, s3⟩, ⟨s4, s5, s6⟩⟩ := split_facts _ _ _ p hgeo k0
+  have hv_en : s.org (s.rv (s.nxt e0)) = s.org (s.prv e0) := by
+    have := E1.2.2.2.2.2.2.2.2.1; rw [a3] at this; exact this.symm
+  have hv_ep : s.org (s.rv (s.prv e0)) = s.org e0 := by
+    have := E2.2.2.2.2.2.2.2.2.1; rw [a4] at this; exact this.symm
+  have ho_en : s.org (s.nxt e0) = s.org (s.rv e0) := E0.2.2.2.2.2.2.2.2.1
+  generalize hen : s.nxt e0 = en at *
+  generalize hep : s.prv e0 = ep at *
+  generalize ht : s.rv e0 = tw at *
+  generalize htq : s.prv tw = tq at *
+  have dd : e0 ≠ en ∧ e0 ≠ ep ∧ e0 ≠ tw ∧ e0 ≠ tq ∧ en ≠ ep ∧ en ≠ tw ∧ en ≠ tq ∧ ep ≠ tw ∧ ep ≠ tq ∧ tw ≠ tq := by
+    unfold EdgeOK dst at *
+    refine ⟨a9, a10, Ne.symm rne, ?_, a11, Ne.symm x1, ?_, Ne.symm x2, ?_, ?_⟩
+    all_goals grind
+  """ + dpairs(["e0", "en", "ep", "tw", "tq"]),
+        facts=", hv_en, hv_ep, ho_en",
+    ),
 )
 
 CREATE_FACE = dict(
@@ -408,6 +607,33 @@ theorem LInv.cnCore {s : St} (hs : LInv s) (e0 : Nat) (p : Pt) (d : Nat) (b_0 : 
     sem=", hen, hep, a4, a5",
     check_pre="    have hq' : (ep = en) = (en = ep) := propext eq_comm\n    by_cases hq : en = ep <;>\n",
     check_facts=", hq', hq",
+    ccw=dict(
+        doc="a new vertex strictly on the outer side of a hull edge: the new face is counter-clockwise, all others are unchanged",
+        hyps="(hgeo : 0 < orient (s.A e0) (s.B e0) p)",
+        setup="""  have E0 := hs.edge e0 b_0
+  have b_1 : s.nxt e0 < s.nE := E0.2.1
+  have b_2 : s.prv e0 < s.nE := E0.2.2.1
+  have E1 := hs.edge _ b_1
+  have E2 := hs.edge _ b_2
+  have a4 : s.nxt (s.prv e0) = e0 := E0.2.2.2.2.2.2.1
+  have a5 : s.prv (s.nxt e0) = e0 := E0.2.2.2.2.2.1
+  have f1 : s.fc (s.nxt e0) = 0 := by rw [E0.2.2.2.2.2.2.2.1]; exact hfc
+  have f2 : s.fc (s.prv e0) = 0 := by
+    have := E2.2.2.2.2.2.2.2.1; rw [a4, hfc] at this; exact this.symm
+  have l0 := hs.rv_lt b_0
+  have l1 := hs.rv_lt b_1
+  have l2 := hs.rv_lt b_2
+  have r0 := hs.rv_rv b_0
+  have rne := hs.rv_ne b_0
+  unfold A B dst at hgeo
+  have g1a := hgeo; rw [← orient_rot] at g1a
+  have g1b := g1a; rw [← orient_rot] at g1b
+  generalize hen : s.nxt e0 = en at *
+  generalize hep : s.prv e0 = ep at *
+  have d_0_1 : e0 ≠ en := by unfold EdgeOK dst at *; grind
+  have d_0_2 : e0 ≠ ep := by unfold EdgeOK dst at *; grind""",
+        facts=", hfc, f1, f2",
+    ),
 )
 
 SINGLE_FACE = dict(
@@ -465,6 +691,46 @@ theorem LInv.csCore {s : St} (hs : LInv s) (e0 : Nat) (p0 : Unit) (b_0 : e0 < s.
     sem=", hen, hep, hnn, a4, a5, a6",
     check_pre="    have hq' : (nn = ep) = (ep = nn) := propext eq_comm\n    by_cases hq : ep = nn <;>\n",
     check_facts=", hq', hq",
+    ccw=dict(
+        doc="closing two consecutive hull edges that make a strict left turn: the new face is counter-clockwise, all others are unchanged",
+        hyps="(hgeo : 0 < orient (s.A e0) (s.B e0) (s.B (s.nxt e0)))",
+        setup="""  have E0 := hs.edge e0 b_0
+  have b_1 : s.nxt e0 < s.nE := E0.2.1
+  have b_2 : s.prv e0 < s.nE := E0.2.2.1
+  have E1 := hs.edge _ b_1
+  have b_3 : s.nxt (s.nxt e0) < s.nE := E1.2.1
+  have E2 := hs.edge _ b_2
+  have E3 := hs.edge _ b_3
+  have a4 : s.nxt (s.prv e0) = e0 := E0.2.2.2.2.2.2.1
+  have a5 : s.prv (s.nxt e0) = e0 := E0.2.2.2.2.2.1
+  have a6 : s.prv (s.nxt (s.nxt e0)) = s.nxt e0 := E1.2.2.2.2.2.1
+  have f1 : s.fc (s.nxt e0) = 0 := by rw [E0.2.2.2.2.2.2.2.1]; exact hfc
+  have f2 : s.fc (s.prv e0) = 0 := by
+    have := E2.2.2.2.2.2.2.2.1; rw [a4, hfc] at this; exact this.symm
+  have f3 : s.fc (s.nxt (s.nxt e0)) = 0 := by rw [E1.2.2.2.2.2.2.2.1]; exact f1
+  have l0 := hs.rv_lt b_0
+  have l1 := hs.rv_lt b_1
+  have l2 := hs.rv_lt b_2
+  have l3 := hs.rv_lt b_3
+  have r0 := hs.rv_rv b_0
+  have r1 := hs.rv_rv b_1
+  have r2 := hs.rv_rv b_2
+  have r3 := hs.rv_rv b_3
+  unfold A B dst at hgeo
+  have ho_en : s.org (s.nxt e0) = s.org (s.rv e0) := E0.2.2.2.2.2.2.2.2.1
+  rw [← ho_en] at hgeo
+  have g1a := hgeo; rw [← orient_rot] at g1a
+  have g1b := g1a; rw [← orient_rot] at g1b
+  generalize hen : s.nxt e0 = en at *
+  generalize hep : s.prv e0 = ep at *
+  generalize hnn : s.nxt en = nn at *
+  have d_0_1 : e0 ≠ en := by unfold EdgeOK dst at *; grind
+  have d_0_2 : e0 ≠ ep := by unfold EdgeOK dst at *; grind
+  have d_0_3 : e0 ≠ nn := Ne.symm h2
+  have d_1_2 : en ≠ ep := by unfold EdgeOK dst at *; grind
+  have d_1_3 : en ≠ nn := by unfold EdgeOK dst at *; grind""",
+        facts=", hfc, f1, f2, f3, ho_en",
+    ),
 )
 
 EXTEND_LINE = dict(
@@ -590,5 +856,6 @@ theorem LInv.slbCore {s : St} (hs : LInv s) (e0 : Nat) (p : Pt) (d : Nat) (b_0 :
 )
 
 if __name__ == "__main__":
-    for c in [SPLIT_EDGE, TRIANGLE, SPLIT_HALF, CREATE_FACE, SINGLE_FACE, EXTEND_LINE, SPLIT_LINE_A, SPLIT_LINE_B]:
+    import sys as _sys
+    for c in [x for x in [SPLIT_EDGE, TRIANGLE, SPLIT_HALF, CREATE_FACE, SINGLE_FACE, EXTEND_LINE, SPLIT_LINE_A, SPLIT_LINE_B] if len(_sys.argv) < 2 or x["file"] in _sys.argv[1:]]:
         op(c)
